@@ -97,6 +97,9 @@ def gen(rng, tier):
     clients = [c for c in clients if c] or [[["submit", 0]]]
     spec = {"base": base, "layers": layers, "subs": subs, "clients": clients, "aux": False,
             "final_shutdown": rng.choice([None, None, True, False])}
+    if spec["final_shutdown"] is not None and rng.random() < 0.5:
+        spec["shutdown_racers"] = rng.choice([1, 1, 2])
+        spec["shutdown_inner"] = rng.random() < 0.3
     if layers[-1]["t"] == "cos" and spec["final_shutdown"] is not None and base["kind"] != "sync" and rng.random() < 0.6:
         # leave something for the sweep: a submission that is still running / queued at shutdown
         for k in list(subs)[:rng.choice([1, 2])]:
@@ -131,7 +134,19 @@ def run(spec, env):
     env.sleep(2.0 if spec.get("shutdown_early") else spec["settle"])
     sr.finals()
     if spec["final_shutdown"] is not None:
+        racers = []
+        for k in range(spec.get("shutdown_racers", 0)):
+            # shutdown() called by several threads at once, and on inner layers too: one executor
+            # leaves the in-use gauge exactly once
+            tgt = sr.chain[-1 - (k % len(sr.chain))] if spec.get("shutdown_inner") else sr.ex
+
+            def racer(tgt=tgt):
+                tgt.shutdown(spec["final_shutdown"])
+            racers.append(env.client(racer, "client-sd%d" % k))
         sr.ex.shutdown(spec["final_shutdown"])
+        for ts in racers:
+            env.join(ts)
+        sr.ex.shutdown(spec["final_shutdown"])     # and once more, sequentially: harmless
         env.rec("shutdown-done")
         env.sleep(5.0)
         sr.finals()
